@@ -2590,3 +2590,23 @@ breaker('C07', 'undoing-sweep-removes-dir-of-gone-object', 'C13.R13', BLOBPY,
                     remove_committed_dir(oid_path)
                     continue
             for filename in files:''')
+
+# ---- F64 -------------------------------------------------------------------
+breaker('C17', 'iterator-raises-for-short-header', 'C17.R17', FSPY,
+        'FileIterator.__next__',
+        '''                if len(err.buf) < TRANS_HDR_LEN:''',
+        '''                if len(err.buf) < 0:''')
+twin('C17', 'iterator-short-header-inverted', FSPY, 'FileIterator.__next__',
+     '''                if len(err.buf) < TRANS_HDR_LEN:
+                    # The file ends in the middle of a transaction
+                    # header: an unfinished transaction, as when it ends
+                    # in the middle of the transaction's data (below).
+                    logger.warning("%s truncated at %s",
+                                   self._file.name, pos)
+                    break
+                raise''',
+     '''                if len(err.buf) >= TRANS_HDR_LEN:
+                    raise
+                logger.warning("%s truncated at %s",
+                               self._file.name, pos)
+                break''')
